@@ -724,6 +724,46 @@ def _check_sniffer(ctx, cls, role):
                 reasons.append((nodes[0], '=', 'the stored value depends on ' + r))
         for fst in flags[before:]:
             work.append((fst, 'flag', getattr(fst, 'value', None)))
+        state_fields = {f for _st, f, _v, _aug in state_stores}
+        if label != 'flag':
+            tested = any(n.kind in ('if', 'while') and any(U.is_self_attr(x) and x.attr in state_fields for x in ast.walk(n.stmt.test))
+                         for n, k in deps)
+            if tested:
+                # ... and the store is unreachable once a decision has been taken: remove every edge that implies "undecided"
+                def undecided_truth(t):
+                    if isinstance(t, ast.UnaryOp) and isinstance(t.op, ast.Not):
+                        r = undecided_truth(t.operand)
+                        return None if r is None else not r
+                    if U.is_self_attr(t) and t.attr in state_fields:
+                        return False
+                    if isinstance(t, ast.Compare) and len(t.ops) == 1 and U.is_self_attr(t.left) and t.left.attr in state_fields \
+                            and isinstance(t.comparators[0], ast.Constant) and t.comparators[0].value is None:
+                        return isinstance(t.ops[0], ast.Is)
+                    if isinstance(t, ast.BoolOp):
+                        vals = [undecided_truth(v) for v in t.values]
+                        if isinstance(t.op, ast.And):
+                            if any(v is False for v in vals):
+                                return False
+                            return True if all(v is True for v in vals) else None
+                        if any(v is True for v in vals):
+                            return True
+                        return False if all(v is False for v in vals) else None
+                    return None
+
+                def decided_edge(a, b, k):
+                    if a.kind in ('if', 'while') and k in ('T', 'F'):
+                        u = undecided_truth(a.stmt.test)
+                        if u is not None and (k == 'T') == u:
+                            return False
+                    return True
+                for n in nodes:
+                    pth = sn.cfg.find_path(sn.cfg.entry, lambda m, n=n: m is n, edge_ok=decided_edge)
+                    if pth is not None:
+                        tested = False
+            ck.expect(tested, 'C19-D1', where, '%s only while the decoder is undecided' % _canon(st, piece),
+                      'decoder state is (re)written by `%s` without a dominating test of the decoder state: the format decision can be '
+                      'taken again on a later piece (e.g. a corrupt zlib stream silently restarts as raw deflate), so the result '
+                      'depends on where the body is cut and corruption is not reported' % norm_text(st), fi.loc(st))
         if reasons:
             for n, k, r in reasons:
                 src = node_expr(n) if n.kind not in ('if', 'while') else n.stmt.test
@@ -880,6 +920,16 @@ def _check_deflate_candidates(ctx, sn):
         else:
             ck.bad('C19-D1', where, cons, 'inflater created with wbits=%s: neither zlib-wrapped (MAX_WBITS) nor raw deflate '
                    '(-MAX_WBITS)' % (w,), fi.loc(st))
+    # a zlib header is recognised by arithmetic on its first byte(s) (CM = 8, CINFO <= 7, FCHECK), not by equality with one
+    # constant: the eight legal CMF bytes are 08 18 28 38 48 58 68 78
+    legal = {bytes([0x08 + 0x10 * i]) for i in range(8)}
+    tests = _magic_tests(sn)
+    consts = {c for _e, c, _x, _n in tests}
+    if tests and not legal <= consts:
+        for expr, const, extent, negated in tests:
+            ck.bad('C19-D1', where, _canon(expr, sn.piece) + ' (zlib header sniffed by constant)',
+                   'zlib-wrapped deflate is recognised by comparing the first byte with %r only: valid zlib streams with another window '
+                   'size (CMF bytes 08..68) are taken for raw deflate and fail' % (const,), fi.loc(expr))
     for k, text in (('zlib', 'zlib.decompressobj() candidate'), ('raw', 'zlib.decompressobj(-zlib.MAX_WBITS) candidate')):
         if k not in kinds:
             ck.bad('C19-D1', where, text, 'the deflate decoder has no %s inflater: %s bodies cannot be decoded'
